@@ -5,6 +5,8 @@ import (
 	"go/types"
 	"math/big"
 	"strings"
+
+	"golang.org/x/tools/go/ssa"
 )
 
 // Engine holds per-run global tables shared by all function contexts.
@@ -22,13 +24,15 @@ type Engine struct {
 	// immutable sentinel globals (error values assigned once at init).
 	sentinelMemo map[string]bool
 	inlineMemo   map[string]bool
+	freshMemo    map[string]bool
+	globals      map[*ssa.Global]*globalInfo
 	CheckOverflow bool
 }
 
 func NewEngine(p *Program, cs *Contracts) *Engine {
 	return &Engine{Prog: p, CS: cs, typeIDs: map[string]int{}, globalIDs: map[string]int{},
 		writeMemo: map[string]*WriteSet{}, writeBusy: map[string]bool{}, loopMemo: map[string]*loopInfo{},
-		Notes: map[string]bool{}, srcCache: map[string][]byte{}, sentinelMemo: map[string]bool{}, inlineMemo: map[string]bool{}}
+		Notes: map[string]bool{}, srcCache: map[string][]byte{}, sentinelMemo: map[string]bool{}, inlineMemo: map[string]bool{}, freshMemo: map[string]bool{}}
 }
 
 func (e *Engine) note(s string) { e.Notes[s] = true }
@@ -371,6 +375,8 @@ func (c *Ctx) typeFacts(term string, t types.Type, alloc string) string {
 			f += fmt.Sprintf(" (or (= (sbase %s) nil) (< (pobj (sbase %s)) %s))", term, term, alloc)
 		}
 		return f + ")"
+	case *types.Interface:
+		return fmt.Sprintf("(=> (= (ityp %s) 0) (= %s niliface))", term, term)
 	case *types.Struct:
 		si := c.structInfoOf(t)
 		var fs []string
